@@ -152,6 +152,8 @@ def normalise(tr):
                  kind="sigterm" if e.get("kind") == "sigint" else e.get("kind", ""), iid=e.get("iid", 0), bad=False)
         if ev == "reset":
             n["id"], n["comps"], n["st"] = e["id"], e["script"]["comps"], "Starting"
+        elif ev == "retrieve":
+            n["ok"] = not e.get("broken", False)
         elif ev == "ext_done":
             n["bad"] = e.get("panics", 0) > 0 or bool(e.get("blocked"))
         elif ev == "notify_done":
@@ -192,6 +194,73 @@ def monitor(c, results, label):
         for t, cl, l in viol:
             bad.setdefault(t, []).append((cl, l))
     return bad
+
+
+def strict(c, results, label, limit):
+    """strict conformance of a sample of the logs with Collector.tla (CollectorStrict.tla); returns the
+    number of logs that the model follows; logs it cannot follow are reported as model drift"""
+    from concurrent.futures import ThreadPoolExecutor
+    groups = {}
+    for sc, tr in results:
+        if any(e["ev"] == "timeout" for e in tr):
+            continue
+        groups.setdefault(len(sc["comps"]), []).append((sc, tr))
+    jobs = []
+    for ncomp, grp in sorted(groups.items()):
+        grp = grp[:max(1, limit * len(grp) // max(1, len(results)))]
+        nb = max(1, min(4, len(grp) // 150))
+        jobs += [(ncomp, grp[k::nb], "%s_%d_%d" % (label, ncomp, k)) for k in range(nb)]
+
+    def one(job):
+        ncomp, grp, lab = job
+        followed, drift = 0, []
+        for attempt in range(4):
+            if not grp:
+                break
+            lines, owner = [], []
+            for sc, tr in grp:
+                nl = normalise(tr)
+                lines += nl
+                owner += [sc["id"]] * len(nl)
+            f = os.path.join(c.work, "%s_observed_%d.ndjson" % (lab, attempt))
+            vlib.write_ndjson(f, lines)
+            text = cfg(ncomp, 8, 60, 60, False, ["ModelProperty"], view=True).replace("SPECIFICATION Spec", "SPECIFICATION SSpec") \
+                .replace("VIEW view\n", "") \
+                .replace("  Nobody = Nobody", "  Nobody = Nobody\n  CreateComp <- LogComp\n  StartComp <- LogComp\n  StopComp <- LogComp") \
+                + "CONSTRAINT HighWater\nPOSTCONDITION Accepted\n"
+            r = c.tlc("Collector", "CollectorStrict", cfg_text=text, workers=1, files={"observed.ndjson": f},
+                      timeout=1500, label="%s_%d" % (lab, attempt), count=False, heap="4g")
+            if r.timed_out:
+                raise vlib.Inconclusive("strict conformance %s timed out" % lab)
+            if r.ok:
+                followed += len(grp)
+                break
+            hw = None
+            for pr in r.out.splitlines():
+                if "REJECTED_AT" in pr:
+                    hw = int(pr.replace(">>", "").split(",")[1])
+            if hw is None:
+                if r.error and r.error[0] == "invariant":
+                    drift.append(("(model property)", "the model's own observation record breaks %s" % r.error[1]))
+                    break
+                raise vlib.Inconclusive("strict conformance %s failed without a position: %s" % (lab, r.out[-1200:]))
+            tid = owner[min(hw, len(owner)) - 1]
+            at = lines[min(hw, len(lines)) - 1]
+            drift.append((tid, "line %d of its log: %s" % (hw - owner.index(tid), {k: v for k, v in at.items() if v not in ("", [], 0, False)})))
+            k = [sc["id"] for sc, _ in grp].index(tid)
+            followed += k                      # the logs before it were followed
+            grp = grp[k + 1:]
+        return followed, drift, len(job[1])
+
+    with ThreadPoolExecutor(max(1, min(6, len(jobs)))) as ex:
+        outs = list(ex.map(one, jobs))
+    followed = sum(o[0] for o in outs)
+    total = sum(o[2] for o in outs)
+    by_id = {sc["id"]: sc for sc, _ in results}
+    for _, drift, _ in outs:
+        for tid, what in drift:
+            c.model_drift("Collector.tla cannot follow the real run of [%s] at %s" % (describe(by_id[tid]) if tid in by_id else tid, what))
+    return followed, total
 
 
 def shape(sc, is_counterexample):
@@ -370,6 +439,12 @@ def run(c):
     for (clause, sig), n in sorted(per_sig.items(), key=str):
         c.log("broken: %-22s x%-4d %s" % (clause, n, sig or ""))
     c.extra["broken_clauses"] = {"%s | %s" % k: n for k, n in per_sig.items()}
+    # 5. strict conformance of a sample of the logs with the implementation-shaped model
+    t0 = time.time()
+    good = [(sc, tr) for sc, tr in results if sc["id"] not in bad]
+    nfollowed, nstrict = strict(c, good, "strict", 400 if q else 3000)
+    c.extra["strict_conformance"] = dict(logs=nstrict, followed_by_Collector_tla=nfollowed)
+    c.log("strict conformance: Collector.tla follows %d of %d logs (%.1fs)" % (nfollowed, nstrict, time.time() - t0))
     ok_traces = len([1 for sc, tr in results if sc["id"] not in bad])
     c.traces_validated += ok_traces
     c.log("%d scripts run, %d traces satisfy every clause, %d with broken clauses" % (len(results), ok_traces, len(bad)))
